@@ -47,3 +47,73 @@ package timing
 //@   requires validFreq(f)
 //@   label C42.noearlier.least
 //@   ensures forall q nat :: q * period(f) >= int(t) && (q == 0 || (q - 1) * period(f) < int(t)) && q * period(f) < TWO64 ==> int(result) == q * period(f)
+
+// ---- C41: generated IDs are unique; the sequential counter is reproducible ----
+
+//@ fn (*sequentialIDGenerator).Generate
+//@   property C41
+//@   requires g.nextID < MaxUint64
+//@   label C41.seq.next
+//@   ensures int(result) == int(old(g.nextID)) + 1 && g.nextID == result
+//@   label C41.seq.nonzero
+//@   ensures result != 0 && result > old(g.nextID)
+//@   assigns g.nextID
+
+//@ fn (*parallelIDGenerator).Generate
+//@   property C41
+//@   requires g.nextID < MaxUint64
+//@   label C41.par.next
+//@   ensures int(result) == int(old(g.nextID)) + 1 && g.nextID == result
+//@   label C41.par.nonzero
+//@   ensures result != 0 && result > old(g.nextID)
+//@   assigns g.nextID
+
+// Uniqueness follows from the two postconditions: every ID handed out is at most the counter, and each new one exceeds it.
+//@ lemma idsDistinct(n0, r1, n1, m, r2)
+//@   property C41
+//@   requires n0 >= 0 && r1 == n0 + 1 && n1 == r1 && m >= n1 && r2 == m + 1
+//@   label C41.lemma.distinct
+//@   ensures r2 > r1 && r1 != 0 && r2 != 0
+
+// The generator singleton is guarded by idGeneratorMutex. Rely/guarantee: once a generator is installed it is
+// never replaced (that is what keeps the ID sequence from restarting when two goroutines race to create it).
+//@ lockinv idGeneratorMutex
+//@   assigns idGenerator, idGeneratorInstantiated
+//@   requires idGeneratorInstantiated ==> idGenerator != nil
+//@   ensures old(idGeneratorInstantiated) ==> idGeneratorInstantiated && idGenerator == old(idGenerator)
+
+//@ fn GetIDGenerator
+//@   property C41
+//@   requires idGeneratorInstantiated ==> idGenerator != nil
+//@   label C41.get.instantiated
+//@   ensures idGeneratorInstantiated && result == idGenerator && result != nil
+//@   label C41.get.stable
+//@   ensures old(idGeneratorInstantiated) ==> result == old(idGenerator) && nothingAssigned()
+//@   label C41.get.fresh
+//@   ensures !old(idGeneratorInstantiated) && !atlock(idGeneratorInstantiated) ==> hastype(result, "*sequentialIDGenerator") && as(result, "*sequentialIDGenerator").nextID == 0 && fresh(as(result, "*sequentialIDGenerator"))
+//@   label C41.get.raced
+//@   ensures !old(idGeneratorInstantiated) && atlock(idGeneratorInstantiated) ==> result == atlock(idGenerator)
+//@   assigns idGenerator, idGeneratorInstantiated
+
+//@ fn UseSequentialIDGenerator
+//@   property C41
+//@   panics any
+//@   label C41.useseq
+//@   ensures idGeneratorInstantiated && hastype(idGenerator, "*sequentialIDGenerator") && as(idGenerator, "*sequentialIDGenerator").nextID == 0 && fresh(as(idGenerator, "*sequentialIDGenerator"))
+//@   label C41.useseq.first
+//@   ensures !old(idGeneratorInstantiated)
+//@   assigns idGenerator, idGeneratorInstantiated
+
+//@ fn GetIDGeneratorNextID
+//@   property C41
+//@   requires hastype(idGenerator, "*sequentialIDGenerator") && as(idGenerator, "*sequentialIDGenerator") != nil
+//@   label C41.getnext
+//@   ensures result == as(idGenerator, "*sequentialIDGenerator").nextID
+//@   assigns nothing
+
+//@ fn SetIDGeneratorNextID
+//@   property C41
+//@   requires hastype(idGenerator, "*sequentialIDGenerator") && as(idGenerator, "*sequentialIDGenerator") != nil
+//@   label C41.setnext
+//@   ensures as(idGenerator, "*sequentialIDGenerator").nextID == id
+//@   assigns as(idGenerator, "*sequentialIDGenerator").nextID
